@@ -176,8 +176,71 @@ fn same_class(a: &Canon, b: &Canon) -> bool {
   }
 }
 
+impl C05 {
+  /// every call of one standard-library function (or one operator spelling) over the operand pool of C19: an expression never changes
+  /// an existing binding, a failed one changes nothing at all, and a successful `r := f(..)` adds exactly the name r
+  fn stdlib_unit(&mut self, unit: u64, out: &mut WorkerOut) {
+    use super::c19::{kernel_items, KERNEL_POOL};
+    let items = kernel_items();
+    let fname: &str = &items[unit as usize];
+    let names: Vec<&str> = KERNEL_POOL.iter().map(|p| p.0).collect();
+    let mut calls: Vec<String> = vec![];
+    if let Some(op) = fname.strip_prefix("operator ") {
+      match op {
+        "-x" | "!x" => for x in &names { calls.push(format!("{}{}", &op[..op.len() - 1], x)); },
+        "x'" => for x in &names { calls.push(format!("{}'", x)); },
+        _ => for x in &names { for y in &names { calls.push(format!("{} {} {}", x, op, y)); } },
+      }
+    } else {
+      for x in &names { calls.push(format!("{}({})", fname, x)); }
+      for x in &names { for y in &names { calls.push(format!("{}({}, {})", fname, x, y)); } }
+      for x in ["a", "h", "b", "c"] { for y in ["a", "h", "b", "c"] { for z in ["a", "k", "b"] { calls.push(format!("{}({}, {}, {})", fname, x, y, z)); } } }
+    }
+    let mut s = Session::new();
+    for (_, d) in KERNEL_POOL.iter() { s.run(d); }
+    let mut pre = s.snapshot();
+    let pool_defs = "operand pool (a := 3.0; h := 0.5; b := [1 2 3]; cv; c; d; e; cw; g; gg; t; tt; s; bo; bv; u; ub; k; ~x := 2.0; ~y := [4 5 6])";
+    for (i, c) in calls.iter().enumerate() {
+      out.evaluations += 1;
+      let rn = format!("r{}", (0..3).map(|k| (b'a' + ((i / 26usize.pow(k)) % 26) as u8) as char).collect::<String>());
+      let st = format!("{} := {}", rn, c);
+      let o = s.run(&st);
+      let post = s.snapshot();
+      out.nontrivial += 1;
+      let case = format!("{} ;; {}", pool_defs, st);
+      let mut changed = vec![];
+      for (n, m, v) in &pre { match get(&post, n) { None => changed.push(format!("{} disappeared", n)), Some((_, m2, v2)) => { if v2 != v { changed.push(format!("{}{}: {} -> {}", if *m { "~" } else { "" }, n, v.short(), v2.short())); } else if m2 != m { changed.push(format!("{} mutability", n)); } } } }
+      // a call of an op-assignment kernel by name is an op-assignment of its first argument: a mutable first argument may change
+      if fname.contains("-assign") {
+        let first = c.split('(').nth(1).unwrap_or("").split(|ch| ch == ',' || ch == ')').next().unwrap_or("").trim().to_string();
+        changed.retain(|ch| !ch.starts_with(&format!("~{}:", first)));
+      }
+      let mut leaked = vec![];
+      for (n, _, _) in &post { if get(&pre, n).is_none() && !(o.is_value() && n == &rn) { leaked.push(n.clone()); } }
+      match &o {
+        Outcome::Panic(m) => out.fail(format!("C05|abort|stdlib-call:{}", fname), case.clone(), format!("host panic: {}", m)),
+        Outcome::Value(_) => { out.count("stdlib_calls_accepted"); out.set("stdlib_functions_called", fname); }
+        _ => { out.count("stdlib_calls_rejected"); }
+      }
+      if !changed.is_empty() {
+        let cls = if o.is_value() { if changed.iter().all(|c| c.starts_with('~')) { "alias-write-through" } else { "immutable-changed" } } else { "failed-but-modified" };
+        out.fail(format!("C05|{}|stdlib-call:{}", cls, fname), case.clone(), format!("{} ({})", changed.join(", "), o.short()));
+      }
+      if !leaked.is_empty() { out.fail(format!("C05|names-leaked|stdlib-call:{}", fname), case.clone(), format!("unexpected new names {:?} ({})", leaked, o.short())); }
+      if !changed.is_empty() || !leaked.is_empty() {
+        // continue from a clean session so that one violation is not reported again for every later call
+        s = Session::new();
+        for (_, d) in KERNEL_POOL.iter() { s.run(d); }
+        pre = s.snapshot();
+      } else { pre = post; }
+      if i == 0 && unit % 29 == 0 { out.sample(json!({"stdlib_call": st, "outcome": o.short()})); }
+    }
+  }
+}
+
 impl UnitRunner for C05 {
   fn unit(&mut self, payload: &str, unit: u64, out: &mut WorkerOut) {
+    if payload == "stdlib" { return self.stdlib_unit(unit, out); }
     if !matches!(&self.level, Some((k, _)) if k == payload) {
       let txt = std::fs::read_to_string(payload).expect("level file");
       self.level = Some((payload.to_string(), serde_json::from_str::<Level>(&txt).unwrap()));
@@ -388,6 +451,15 @@ impl Check for C05 {
       if d + 1 < depth && nf.len() > cap { capped_at = Some(d + 2); nf.sort_by(|a, b| a.history.cmp(&b.history)); nf.truncate(cap); }
       frontier = nf;
     }
+    // every registered standard-library function and operator spelling, called on the bindings of a fixed session
+    let nk = super::c19::kernel_items().len() as u64;
+    let before_calls = rep.out.evaluations;
+    run_jobs(cfg, range_jobs("stdlib", nk, 1), &mut |ev| rep.absorb(ev));
+    rep.out.extra.clear();
+    let called = rep.out.sets.get("stdlib_functions_called").map(|s| s.len()).unwrap_or(0);
+    rep.cov("stdlib_call_family", json!({"functions_and_operator_spellings": nk, "with_an_accepted_call": called, "calls": rep.out.evaluations - before_calls,
+      "oracle": "every existing binding keeps value and mutability, a failed call changes nothing, a successful r := f(..) adds exactly r"}));
+    if called < 60 { rep.vacuity.push(format!("only {} standard-library functions had an accepted call", called)); }
     rep.cov("states", json!(seen.len()));
     rep.cov("transitions", json!(transitions));
     rep.cov("traces_validated_against_impl", json!(transitions));
